@@ -128,6 +128,25 @@ def search(ctx, deep):
                         if not abs(integ - vol) <= 1e-6 + 1e-5 * abs(vol):
                             bad('probability_density', 'integral!=volume', {'rect': [u1, u2, v1, v2]}, [integ, vol],
                                 'integral of pdf over a rectangle = C-volume')
+    # history: one object re-parameterised several times must behave like a fresh object
+    for fam in B.FAMS:
+        obj = B.cls_of(fam)()
+        pts = np.array([(rng.uniform(0.05, 0.95), rng.uniform(0.05, 0.95)) for _ in range(6)])
+        for step in range(6 if not deep else 20):
+            th = B.theta_random(fam, rng)
+            obj.theta = th
+            fresh = B.make(fam, th)
+            checked += 1
+            with np.errstate(all='ignore'):
+                same = all(np.array_equal(np.asarray(getattr(obj, m)(pts), dtype=float),
+                                          np.asarray(getattr(fresh, m)(pts), dtype=float), equal_nan=True)
+                           for m in ('probability_density', 'partial_derivative', 'log_probability_density'))
+            if not same:
+                found += 1
+                ctx.fail_input(f'{fam}.probability_density', {'history_step': step, 'theta': th, 'points': pts.tolist()},
+                               'reused object differs from a fresh object with the same theta',
+                               'pdf / partial_derivative depend only on (theta, u, v)', f'{fam}.pdf:history-dependence')
+                break
     ctx.support = {'oracle_checks': checked, 'failures': found, 'deep': deep}
 
 
